@@ -58,8 +58,12 @@ def main():
         head = subprocess.check_output(["git", "-C", "/repo", "rev-parse", "HEAD"], text=True).strip()
         sh(["git", "checkout", "-q", "--detach", head], cwd=WT)
     # demonstration without the patch
-    shutil.copy(os.path.join(seed, "seed_demo.rs"), os.path.join(WT, "tests", "seed_demo.rs"))
-    rc, out = sh("cargo test --offline --test seed_demo 2>&1", cwd=WT, env=env)
+    backend = "example_backend" in json.dumps(meta)
+    demo_path = os.path.join(WT, "bevy_replicon_example_backend" if backend else "", "tests", "seed_demo.rs")
+    demo_cmd = ("cargo test --offline -p bevy_replicon_example_backend --test seed_demo 2>&1" if backend
+                else "cargo test --offline --test seed_demo 2>&1")
+    shutil.copy(os.path.join(seed, "seed_demo.rs"), demo_path)
+    rc, out = sh(demo_cmd, cwd=WT, env=env)
     res["demo_without_patch_passes"] = rc == 0
     # apply the patch
     rc, out = sh(["git", "apply", "--3way", patch], cwd=WT)
@@ -70,9 +74,9 @@ def main():
         res["apply_error"] = out[-400:]
         print(json.dumps(res))
         return 1
-    rc, out = sh("cargo test --offline --test seed_demo 2>&1", cwd=WT, env=env)
+    rc, out = sh(demo_cmd, cwd=WT, env=env)
     res["demo_with_patch_fails"] = rc != 0
-    os.remove(os.path.join(WT, "tests", "seed_demo.rs"))
+    os.remove(demo_path)
     rc, passed, failed, out = suite(WT, env)
     res["suite_with_patch"] = {"rc": rc, "passed": passed, "failed": failed}
     res["valid"] = bool(res["demo_without_patch_passes"] and res["demo_with_patch_fails"] and rc == 0 and failed == 0)
